@@ -270,6 +270,8 @@ func c06Layout(w *h.World, repo string, p GCPolicy) []h.Violation {
 
 func c06Specs(tier string) []*h.SeqSpec {
 	f := c06Fix()
+	odd := f.Raw("Odd", f.Items["A1"], []byte(strings.Replace(string(f.Items["A1"].Data), f.Items["I1"].Dig, "bogus", 1)))
+	odd.Subject, odd.SubjDig = "", ""
 	items := []string{"c", "l1", "l2", "e", "dang", "I1", "I2", "X", "A1", "A4", "A5", "Au", "Apr"}
 	tags := []string{"t1", "x", "a"}
 	subjects := []string{f.Items["I1"].Dig, f.Items["I2"].Dig}
@@ -378,6 +380,22 @@ func c06Specs(tier string) []*h.SeqSpec {
 					return vs
 				}})
 			}
+			// an artifact whose subject digest is not a digest at all (manifest pushes do not validate it): the pass has to
+			// cope with the entry; what becomes of the artifact itself is left open, everything else is demanded as usual
+			ops = append(ops, h.Op{Name: "push an artifact with the subject digest \"bogus\" to q", Do: func(w *h.World) []h.Violation {
+				m := regM(w).Repo("q")
+				for _, b := range append([]string{f.Items["Odd"].Config}, f.Items["Odd"].Layers...) {
+					if rr := w.PushBlob("q", f.Items[b].Data, f.Items[b].Dig); rr.Status == 201 {
+						m.PushBlob(b)
+					}
+				}
+				odd := f.Items["Odd"]
+				if rr := w.PutManifest("q", odd.Dig, odd.MT, odd.Data); rr.Status == 201 {
+					m.PushManifest(odd, "")
+					m.Limbo["Odd"] = true
+				}
+				return nil
+			}})
 			if store == "dir" {
 				ops = append(ops, h.Op{Name: "look q up without writing (cache entry without a directory)", Do: func(w *h.World) []h.Violation {
 					w.Tags("q", "")
